@@ -388,11 +388,13 @@ def run(ctx):
     # ---------------------------------------------------------------- model diff
     got = ctx.model('drv_c16', req)
     ndis = 0
+    seen_keys = set()
     for r, e, g, m in zip(req, exp, got, meta):
         if e != g:
             ndis += 1
-            if ndis > 25:
+            if ('c', m['op']) in seen_keys:
                 continue
+            seen_keys.add(('c', m['op']))
             orc = [o for o in oracle_bad if o[1] == r]
             found = orc[0][3] if orc else None
             ctx.violation('op-corr:' + m['op'], 'model and implementation disagree on `%s`%s' % (
@@ -400,7 +402,10 @@ def run(ctx):
                 {'request': r[:3000], 'implementation': e[:2000], 'model': g[:2000], 'dense_definition': found,
                  'stream': 'op (drv_c16)', 'meta': m, 'theorems': THEOREMS}, bool(orc))
     ctx.obligation('correspondence stream op: %d requests, model == implementation' % len(req), ndis == 0, '%d disagreements' % ndis)
-    for (m, r, e, want) in oracle_bad[:60]:
+    for (m, r, e, want) in oracle_bad:
+        if ('o', m.get('key') or m['op']) in seen_keys:
+            continue
+        seen_keys.add(('o', m.get('key') or m['op']))
         ctx.violation(m.get('key') or 'op-oracle:' + m['op'], '%s differs from its dense definition (numpy.kron / numpy.block)' % m['op'],
                       {'request': r[:3000], 'implementation': e[:2000], 'dense_definition': want[:2000], 'meta': m}, True)
     known = ctx.known_keys()
